@@ -94,11 +94,22 @@ def run(chk) -> None:
     radii = atom_types(chk)
     at = repo.cls(M, "AtomType")
     chk.expect(set(radii) == {"C", "N", "O", "P"} and all(isinstance(v, float) and v > 0 for v in radii.values()), "atom-types", f"src/rnapolis/clashfinder.py:{at.lineno} AtomType", f"four atom types with radii {radii}", f"atom types/radii are not total over C, N, O, P: {radii}", f"{M}:AtomType:radii", found=radii)
+    # every atom type has its own element's radius (the reference values of the definition: spec/constants.json) - decided on
+    # the evaluated radius of each member, whatever its shape (if-chain, table, helper, renamed constants)
+    ref = c.get("vdw_radii") or {}
+    chk.robust |= {"atom-radii"}
+    wrong = {k: (radii.get(k), v) for k, v in ref.items() if not (isinstance(radii.get(k), (int, float)) and abs(radii[k] - v) < 1e-12)}
+    if ref and set(radii) == set(ref):
+        twin = {k: [k2 for k2, v2 in ref.items() if k2 != k and isinstance(got, (int, float)) and abs(got - v2) < 1e-12] for k, (got, _) in wrong.items()}
+        first = next(iter(sorted(wrong)), None)
+        chk.expect(not wrong, "atom-radii", f"src/rnapolis/clashfinder.py:{at.lineno} AtomType", f"each atom type evaluates to the radius of its own element {ref}", (f"atom type {first} has radius {wrong[first][0]}, not the {wrong[first][1]} A of its element" + (f" (it is the radius of {twin[first][0]}: a row or branch cloned from another element)" if twin.get(first) else "") + f": every clash threshold and the search radius that involve {first} atoms are off") if wrong else "", f"{M}:AtomType:radius-values", expected=ref, found=radii)
     fi = repo.func(M, "find_clashes")
     chk.note_function(fi)
     from checks import c17e
 
     total = set(radii) == {"C", "N", "O", "P"} and all(isinstance(v, float) and v > 0 for v in radii.values())
+    if ref and set(ref) == set(radii):
+        radii = {k: float(ref[k]) for k in radii}  # the definition the listed pairs are compared with uses the reference radii
     why = c17e.check_find_clashes(chk, fi, radii, c["molprobity_extra"]) if total else "the radii of the atom types are not total"
     if why is None:
         # decided on the current code whatever its shape; the pinned forms are not consulted
@@ -424,7 +435,7 @@ def check_cli(chk, fi) -> None:
 
 
 MANIFEST_ENTRY = {
-    "text": "Static decision on the current source of clashfinder.py: the KD-tree radius (evaluated for all 32 option combinations) is at least r_a + r_b + extra for every pair of atom types, so no accepted pair is outside the search; "
+    "text": "Static decision on the current source of clashfinder.py: every atom type evaluates to the radius of its own element (reference values in spec/constants.json); the KD-tree radius (evaluated for all 32 option combinations) is at least r_a + r_b + extra for every pair of atom types, so no accepted pair is outside the search; "
     "the pairs listed by find_clashes, evaluated on one representative per input class (type pair x distance cell, residue/nucleotide configuration, two different residues that share chain/number/insertion code, name equality, occupancy class "
     "incl. 0.0, missing and a sum of 0.99, atoms of no known type) for all 32 option combinations, are exactly those of the van-der-Waals definition (extra = 0.5 iff MolProbity; each option guards exactly one filter; occupancy rule and sum; "
     "atoms considered; record roles; each pair once) and nothing else skips a pair (closed world of the atomic conditions); the evaluated call of find_clashes in main binds every option parameter to the switch of the same name and hands over the whole structure of the input file (no option reaches the parser; main does not filter what find_clashes returns); the CSV rows are the clashes whatever metadata categories / items the file has; running maxima "
